@@ -586,6 +586,63 @@ impl<'input, T: Input> Scanner<'input, T> {
         }
     }
 
+    /// Projection of the scanner state for the verification harness (JSON).
+    #[cfg(feature = "verif-hooks")]
+    #[must_use]
+    pub fn verif_state(&self) -> String {
+        use std::fmt::Write;
+        let mut o = String::new();
+        let _ = write!(
+            o,
+            "{{\"mark\":[{},{},{}],\"indent\":{},\"flow\":{},\"ska\":{},\"parsed\":{},\"avail\":{},\"lw\":{},\"fms\":{},\"adj\":{},\"ssp\":{},\"sep\":{},\"err\":{},\"ntok\":{}",
+            self.mark.index,
+            self.mark.line,
+            self.mark.col,
+            self.indent,
+            self.flow_level,
+            self.simple_key_allowed,
+            self.tokens_parsed,
+            self.token_available,
+            self.leading_whitespace,
+            self.flow_mapping_started,
+            self.adjacent_value_allowed_at,
+            self.stream_start_produced,
+            self.stream_end_produced,
+            self.error.is_some(),
+            self.tokens.len()
+        );
+        o.push_str(",\"indents\":[");
+        for (i, x) in self.indents.iter().enumerate() {
+            if i > 0 {
+                o.push(',');
+            }
+            let _ = write!(o, "[{},{}]", x.indent, x.needs_block_end);
+        }
+        o.push_str("],\"sks\":[");
+        for (i, x) in self.simple_keys.iter().enumerate() {
+            if i > 0 {
+                o.push(',');
+            }
+            let _ = write!(
+                o,
+                "[{},{},{},{},{},{}]",
+                x.possible, x.required, x.token_number, x.mark.index, x.mark.line, x.mark.col
+            );
+        }
+        o.push_str("],\"ifm\":[");
+        for (i, x) in self.implicit_flow_mapping_states.iter().enumerate() {
+            if i > 0 {
+                o.push(',');
+            }
+            o.push_str(match x {
+                ImplicitMappingState::Possible => "\"P\"",
+                ImplicitMappingState::Inside => "\"I\"",
+            });
+        }
+        o.push_str("]}");
+        o
+    }
+
     /// Return whether the [`TokenType::StreamStart`] event has been emitted.
     #[inline]
     pub fn stream_started(&self) -> bool {
